@@ -1,16 +1,73 @@
-//! Suite C10 (stub — replaced when the property's harness is built).
+//! Suite C10: receive windows follow the regional parameters in force when the uplink was sent.
 #![allow(dead_code, unused_imports)]
+use crate::mac::*;
+use crate::macgen::*;
+use crate::macsuites::*;
 use crate::util::*;
 
-pub fn eval(_op: &str) -> String {
-    "bad-op".into()
+pub fn eval(op: &str) -> String {
+    let outs = run_history(op);
+    format!("{} ## oracle={}", outs.join(" ; "), oracle_c09_c10(op, &outs, false, true))
 }
 
 pub fn expand(_op: &str) -> Vec<String> {
     vec![]
 }
 
-pub fn run(_tier: &str, _seed: u64, dir: &str) {
-    let sink = Sink::new(dir);
-    sink.finish(dir, "stub", false, serde_json::json!({}));
+pub fn run(tier: &str, seed: u64, dir: &str) {
+    let mut rng = Rng::new(seed);
+    let mut sink = Sink::new(dir);
+    let thorough = tier == "thorough";
+    // every uplink data rate x RX1 offset (set through RXParamSetupReq) x RX2 override, per region
+    for region in REGIONS {
+        let (lo, _) = band(region);
+        for dr in uplink_drs(region) {
+            for off in 0..8u8 {
+                for rx2 in [None, Some(0u8), Some(2), Some(8)] {
+                    let mut h = Hist::new("C10", region, 20, 0, rng.next() & 0xffff, &[], None);
+                    h.abp().ev(&format!("dr {}", dr)).send(1, false, &[1]);
+                    let dls = (off << 4) | rx2.unwrap_or(15);
+                    h.rx_auth("rx1", 0, 1, false, &rx_param_setup_req(dls, lo + 200_000), None, &[]);
+                    h.snap().ev("delays").send(1, false, &[2]).timeout().snap();
+                    let op = h.done();
+                    sink.case(&op, &eval(&op), "dr-x-offset", true);
+                }
+            }
+        }
+        // every RxDelay
+        for del in 0..16u8 {
+            let mut h = Hist::new("C10", region, 20, 0, 5, &[], None);
+            h.abp().send(1, false, &[1]).rx_auth("rx2", 0, 1, false, &rx_timing_setup_req(del), None, &[]).snap().ev("delays").send(1, false, &[2]).timeout();
+            let op = h.done();
+            sink.case(&op, &eval(&op), "rxdelay", true);
+        }
+        // DlChannelReq remaps (dynamic) / all 72 channels via forced draws (fixed)
+        if is_fixed(region) {
+            for ch in 0..72u32 {
+                let mut h = Hist::new("C10", region, 20, 0, 5, &[ch, ch], None);
+                h.abp().ev(&format!("dr {}", if ch >= 64 { if region == "US915" { 4 } else { 6 } } else { 0 })).snap().send(1, false, &[1]).timeout().snap();
+                let op = h.done();
+                sink.case(&op, &eval(&op), "fixed-channel", true);
+            }
+        } else {
+            for idx in 0..4u8 {
+                let mut h = Hist::new("C10", region, 20, 0, rng.next() & 0xff, &[], None);
+                h.abp().send(1, false, &[1]).rx_auth("rx1", 0, 1, false, &dl_channel_req(idx, lo + 700_000), None, &[]).snap();
+                for _ in 0..6 {
+                    h.send(1, false, &[2]).timeout().snap();
+                }
+                let op = h.done();
+                sink.case(&op, &eval(&op), "dlchannel-remap", true);
+            }
+        }
+        let n = if thorough { 1500 } else { 80 };
+        for _ in 0..n {
+            let mut o = Opts::default();
+            o.steps = 6;
+            o.snaps = true;
+            let op = gen_history("C10", &mut rng, region, &o);
+            sink.case(&op, &eval(&op), "random-history", true);
+        }
+    }
+    sink.finish(dir, "per region: every uplink data rate x RX1 offset 0..7 x RX2 override (set by RXParamSetupReq), every RxDelay 0..15, all 72 fixed-plan channels by forced draws, DlChannelReq remaps, random histories incl. joins; each uplink's RX1/RX2 RfConfig and the delays are judged against RP002 closed forms using the snapshot taken before the uplink. Non-trivial = every case.", false, serde_json::json!({}));
 }
